@@ -135,8 +135,9 @@ def install(flags=()):  # noqa: C901, PLR0915
         with NoTracing():
             from crosshair.libimpl.builtinslib import AnySymbolicStr
 
-            sym = isinstance(obj, CrossHairValue) and not isinstance(obj, AnySymbolicStr)
-            use = sym and _in_msg_context()
+            # containers (tuple of symbolic ints, ...) would realise their elements through repr()
+            plain = isinstance(obj, (str, AnySymbolicStr)) or (type(obj) in (int, float, bool, type(None)))
+            use = (not plain) and _in_msg_context()
         if use:
             return "<sym>"
         return _orig_format(obj, format_spec)
